@@ -420,9 +420,11 @@ void ControlFlowExecutor::execute_match_statement(const ASTNode *node) {
                                 binding_name, enum_value.associated_str_value);
                         } else {
                             // 数値型の場合
+                            // the payload may be a long (L(long), Option<long>,
+                            // Result<long, E>): do not narrow it to int
                             interpreter_->assign_variable(
                                 binding_name, enum_value.associated_int_value,
-                                TYPE_INT);
+                                TYPE_LONG);
                         }
                     }
                 }
